@@ -49,12 +49,14 @@ def run_roundtrip(chk: Check, recs: List[dict], pid: str = "C04") -> None:
 
 def run_parser_shapes(chk: Check, prog: Program) -> None:
     """The domain of R1 is a list of forms chosen by reading the parser; this clause takes the domain from the parser's
-    source: every tree shape the interpreted parser builds from up to five tokens, literals positive and negative."""
+    source: every tree shape the interpreted parser builds from up to five (thorough: six) tokens, literals positive and
+    negative."""
     from sa.printcases import analyse_parser_shapes
-    chk.rule("C04.R5", "every tree shape the parser builds from up to 5 tokens prints to text that parses back to the same "
-             "value (shapes taken from the interpreted parser)", minimum=400)
+    n_tok = 5 if chk.tier == "quick" else 6
+    chk.rule("C04.R5", f"every tree shape the parser builds from up to {n_tok} tokens prints to text that parses back to the "
+             "same value (shapes taken from the interpreted parser)", minimum=400)
     where = "mathy_core/expressions.py:__str__ printers"
-    recs = analyse_parser_shapes(str(REPO))
+    recs = analyse_parser_shapes(str(REPO), n_tok)
     chk.analysed["parser_shapes"] = len(recs)
     for r in recs:
         sh = r["forms"][0][2:]
